@@ -763,4 +763,971 @@ theorem PInv.walker_unique {t t' : Nat} {dt dt' : Bool} {cur cur' : Ptr} {ret re
 
 end facts
 
+/-! ## (c) the one-step simulation -/
+
+theorem abs_claim (c : Cfg) (s : State) (t : Nat) (p : Pc) :
+    abs c { setPc s t p with owner := false, wins := s.wins + 1, winner := some t } =
+      { Chain.setPc (abs c s) t (absPc c s.next t p) with owner := false, wins := (abs c s).wins + 1, winner := some t } := by
+  apply chain_state_ext <;> try rfl
+  exact abs_pc_step c s.next s.next s.pc t p (fun _ _ => rfl)
+
+theorem abs_dtorLoad (c : Cfg) (s : State) (t : Nat) :
+    abs c (dtorLoad s t).1 = (Chain.dtorLoad (abs c s) t).1 ∧ (dtorLoad s t).2 = (Chain.dtorLoad (abs c s) t).2 := by
+  unfold dtorLoad Chain.dtorLoad
+  have ho : (abs c s).owner = s.owner := rfl
+  rw [ho]
+  split
+  · exact ⟨abs_claim c s t _, rfl⟩
+  · exact ⟨abs_setPc c s t _, rfl⟩
+
+theorem abs_ddefClaim (c : Cfg) (s : State) (t : Nat) :
+    abs c (ddefClaim s t).1 = (Chain.ddefClaim (abs c s) t).1 ∧ (ddefClaim s t).2 = (Chain.ddefClaim (abs c s) t).2 := by
+  unfold ddefClaim Chain.ddefClaim
+  have ho : (abs c s).owner = s.owner := rfl
+  rw [ho]
+  split
+  · exact ⟨abs_claim c s t _, rfl⟩
+  · exact ⟨abs_setPc c s t _, rfl⟩
+
+theorem abs_dtorEnter (c : Cfg) (s : State) (t : Nat) :
+    abs c (dtorEnter c s t).1 = (Chain.dtorEnter c (abs c s) t).1 ∧ (dtorEnter c s t).2 = (Chain.dtorEnter c (abs c s) t).2 := by
+  unfold dtorEnter Chain.dtorEnter
+  cases c.kind t <;> first | exact abs_ddefClaim c s t | exact abs_dtorLoad c s t
+
+theorem abs_finishRun (c : Cfg) (s : State) (t : Nat) (dt : Bool) (evs : List Ev) :
+    abs c (finishRun c s t dt evs).1 = (Chain.finishRun c (abs c s) t dt evs).1
+      ∧ (finishRun c s t dt evs).2 = (Chain.finishRun c (abs c s) t dt evs).2 := by
+  unfold finishRun Chain.finishRun
+  cases dt
+  · cases c.kind t
+    · exact ⟨abs_setPc c s t _, rfl⟩
+    · exact ⟨abs_setPc c s t _, rfl⟩
+    · exact ⟨abs_setPc c s t _, rfl⟩
+    · refine ⟨(abs_dtorLoad c s t).1, ?_⟩
+      show evs ++ (dtorLoad s t).2 = evs ++ (Chain.dtorLoad (abs c s) t).2
+      rw [(abs_dtorLoad c s t).2]
+  · exact ⟨abs_setPc c s t _, rfl⟩
+
+theorem walkActs_build (c : Cfg) (l : List Nat) : walkActs c l [] = Chain.buildActs c l := by
+  simp [walkActs, Chain.buildActs]
+
+section
+variable {c : Cfg} {s : State} (h : PInv c s)
+include h
+
+/-- what an atomic operation on the slot observes is the head pointer -/
+theorem PInv.abs_seen : (abs c s).slot.seen = s.head := by
+  by_cases hh : s.head = Seen.ready
+  · rw [(absSlot_ready_iff c s).2 hh, hh]; rfl
+  · rw [absSlot_chain c s hh]
+    have key : ∀ (hd : Ptr) (l : List Nat), ChainIs s.next hd l → (Slot.chain l).seen = hd := by
+      intro hd l hc; cases hc <;> rfl
+    exact key _ _ (h.str.chain hh)
+
+theorem PInv.not_mem_chain {t : Nat} (hh : s.head ≠ Seen.ready) (ht : s.subscribed t = false) :
+    t ∉ follow s.next c.n s.head := by
+  have := (h.chain_facts hh).2.1 t
+  rw [ht] at this
+  simp only [Bool.false_eq_true, if_false] at this
+  exact List.count_eq_zero.1 this
+
+theorem PInv.not_mem_walk {w t : Nat} {dt : Bool} {cur : Ptr} {ret : List Nat} {pend : Option (Nat × Seen)}
+    (hpc : s.pc w = Pc.rWalk dt cur ret pend) (ht : s.subscribed t = false) : t ∉ follow s.next c.n cur := by
+  have := (h.walk_facts hpc).2.2.2 t
+  rw [ht] at this
+  simp only [Bool.false_eq_true, if_false] at this
+  exact List.count_eq_zero.1 (by omega)
+
+/-- writing the `_next` field of an unpublished node changes nobody else's abstraction -/
+theorem PInv.absPc_frame_unsub {t : Nat} (ht : s.subscribed t = false) (v : Ptr) (i : Nat) (hi : i ≠ t) :
+    absPc c (upd s.next t v) i (s.pc i) = absPc c s.next i (s.pc i) := by
+  apply absPc_frame
+  · intro _ _; exact upd_other _ _ _ _ hi
+  · intro dt cur ret pend hpc
+    apply follow_congr
+    intro x hx
+    have : x ≠ t := fun e => h.not_mem_walk hpc ht (e ▸ hx)
+    exact upd_other _ _ _ _ this
+
+theorem PInv.chain_lt (hh : s.head ≠ Seen.ready) (x : Nat) (hx : x ∈ follow s.next c.n s.head) : x < c.n := by
+  have := (h.chain_facts hh).2.1 x
+  have hpos : 0 < (follow s.next c.n s.head).count x := List.count_pos_iff.2 hx
+  split at this
+  · exact (h.lt_of_sub ‹_›).1
+  · omega
+
+end
+
+theorem sim_readStep (c : Cfg) (s' : State) (t : Nat) (hseen : (abs c s').slot.seen = s'.head) :
+    abs c (readStep c s' t).1 = (Chain.readStep c (abs c s') t).1 ∧ (readStep c s' t).2 = (Chain.readStep c (abs c s') t).2 := by
+  unfold readStep Chain.readStep
+  rw [needsLoad_eq, hseen]
+  have hp : (abs c s').payload = s'.payload := rfl
+  rw [hp]
+  split
+  · exact ⟨abs_setPc c s' t _, rfl⟩
+  · refine ⟨?_, ?_⟩
+    · rw [abs_observe, abs_setPc]; rfl
+    · rw [obsOf_eq]; rfl
+
+/-- `_next = nullptr` on the refused path is invisible at list level -/
+theorem abs_clearNext (c : Cfg) (s : State) (h : PInv c s) (t : Nat) (hpc : s.pc t = Pc.wRead true) :
+    abs c (clearNext s t) = abs c s := by
+  have hu := h.unsub (Or.inr (Or.inr hpc))
+  apply chain_state_ext <;> try rfl
+  · show absSlot c s.head (upd s.next t Seen.null) = absSlot c s.head s.next
+    unfold absSlot
+    split
+    · rfl
+    · rename_i hh
+      congr 1
+      apply follow_congr
+      intro x hx
+      have : x ≠ t := fun e => h.not_mem_chain hh hu (e ▸ hx)
+      exact upd_other _ _ _ _ this
+  · funext i
+    show absPc c (upd s.next t Seen.null) i (s.pc i) = absPc c s.next i (s.pc i)
+    by_cases hi : i = t
+    · subst hi; rw [hpc]; rfl
+    · exact h.absPc_frame_unsub hu _ i hi
+
+theorem sim_simple (c : Cfg) (s : State) (h : PInv c s) (t : Nat)
+    (hpc : ∀ dt cur ret pend, s.pc t ≠ Pc.rWalk dt cur ret pend) (hpc2 : ∀ f, s.pc t ≠ Pc.wCas f) :
+    abs c (pstep c s t).1 = (Chain.astep c (abs c s) t).1 ∧ (pstep c s t).2 = (Chain.astep c (abs c s) t).2 := by
+  unfold pstep Chain.astep
+  rw [abs_pc]
+  have ho : (abs c s).owner = s.owner := rfl
+  have hf : (abs c s).flag = s.flag := rfl
+  cases hp : s.pc t with
+  | done => exact ⟨rfl, rfl⟩
+  | rClaim =>
+    simp only [absPc, ho]
+    split
+    · exact ⟨abs_claim c s t _, rfl⟩
+    · exact ⟨abs_setPc c s t _, rfl⟩
+  | rFinLost => exact ⟨abs_setPc c s t _, rfl⟩
+  | rResolve dt =>
+    simp only [absPc]
+    have hpc' : (abs c s).pc t = Chain.Pc.rResolve dt := by rw [abs_pc, hp]; rfl
+    obtain ⟨l, hl⟩ := Chain.chain_of_resolve c t (abs c s) h.base dt hpc'
+    have hh : s.head ≠ Seen.ready := by
+      intro e; rw [(absSlot_ready_iff c s).2 e] at hl; cases hl
+    have hl' := absSlot_chain c s hh
+    unfold resolveStep
+    refine ⟨?_, ?_⟩
+    · apply chain_state_ext <;> try rfl
+      · show (fun i => absPc c s.next i (upd s.pc t (Pc.rWalk dt s.head [] none) i)) = upd (abs c s).pc t _
+        rw [abs_pc_step c s.next s.next s.pc t _ (fun _ _ => rfl)]
+        simp only [absPc, pendActs, List.nil_append, walkActs_build, hl', Chain.chainOf]
+        rfl
+    · show [Ev.opXchgSlot t s.head] = [Ev.opXchgSlot t (abs c s).slot.seen]
+      rw [h.abs_seen]
+  | rWalk dt cur ret pend => exact absurd hp (hpc _ _ _ _)
+  | dArrive =>
+    simp only [absPc, resolversDone_eq]
+    split
+    · exact abs_dtorEnter c s t
+    · exact ⟨abs_setPc c s t _, rfl⟩
+  | dBlocked => exact abs_dtorEnter c s t
+  | dLoad => exact abs_dtorLoad c s t
+  | dFin => exact ⟨abs_setPc c s t _, rfl⟩
+  | wLoad =>
+    simp only [absPc]
+    by_cases hh : s.head = Seen.ready
+    · have := (absSlot_ready_iff c s).2 hh
+      rw [if_pos hh, if_pos this]
+      exact ⟨abs_setPc c s t _, rfl⟩
+    · have hne : (abs c s).slot ≠ Slot.ready := fun e => hh ((absSlot_ready_iff c s).1 e)
+      rw [if_neg hh, if_neg hne]
+      refine ⟨?_, by rw [h.abs_seen]⟩
+      rw [abs_setPc]
+      simp only [absPc, h.str.fresh t hp]
+  | wCas f => exact absurd hp (hpc2 _)
+  | wFinParked => exact ⟨abs_setPc c s t _, rfl⟩
+  | wWait =>
+    simp only [absPc, hf]
+    split
+    · exact ⟨by rw [abs_die, abs_setPc]; rfl, rfl⟩
+    · exact ⟨abs_setPc c s t _, rfl⟩
+  | wBlocked => exact ⟨by rw [abs_die, abs_setPc]; rfl, rfl⟩
+  | wRead clr =>
+    simp only [absPc]
+    cases clr with
+    | false => exact sim_readStep c s t h.abs_seen
+    | true =>
+      have he := abs_clearNext c s h t hp
+      have := sim_readStep c (clearNext s t) t (by rw [he]; exact h.abs_seen)
+      rw [he] at this
+      exact this
+  | wRead2 sn =>
+    simp only [absPc]
+    unfold readStep2 Chain.readStep2
+    refine ⟨?_, ?_⟩
+    · rw [abs_observe, abs_setPc]; rfl
+    · rw [obsOf_eq]; rfl
+
+
+/-- `subscribe_check_ready`'s CAS against the list-level push -/
+theorem sim_cas (c : Cfg) (s : State) (h : PInv c s) (t : Nat) (f : Bool) (hp : s.pc t = Pc.wCas f) :
+    abs c (casStep c s t f).1 = (Chain.astep c (abs c s) t).1 ∧ (casStep c s t f).2 = (Chain.astep c (abs c s) t).2 := by
+  have hu := h.unsub (Or.inr (Or.inl ⟨f, hp⟩))
+  unfold Chain.astep
+  rw [abs_pc, hp]
+  simp only [absPc]
+  by_cases hh : s.head = Seen.ready
+  · -- refused
+    have hne : s.head ≠ s.next t := by rw [hh]; exact fun e => h.str.casnext t f hp e.symm
+    rw [(absSlot_ready_iff c s).2 hh]
+    dsimp only
+    unfold casStep
+    rw [if_neg hne, if_pos hh]
+    refine ⟨?_, rfl⟩
+    apply chain_state_ext <;> try rfl
+    · show absSlot c s.head (upd s.next t Seen.ready) = absSlot c s.head s.next
+      unfold absSlot; rw [if_pos hh, if_pos hh]
+    · exact abs_pc_step c s.next (upd s.next t Seen.ready) s.pc t (Pc.wRead true) (h.absPc_frame_unsub hu _)
+  · have hsl := absSlot_chain c s hh
+    have hseen : (Slot.chain (follow s.next c.n s.head)).seen = s.head := by
+      have := h.abs_seen; rwa [hsl] at this
+    have hc := h.str.chain hh
+    rw [hsl]
+    simp only [hseen]
+    unfold casStep
+    by_cases he : s.head = s.next t
+    · -- success: push
+      rw [if_pos he, if_pos he]
+      have hpush := chainIs_push hc t he.symm
+      have hlen : (t :: follow s.next c.n s.head).length ≤ c.n := by
+        apply len_le c _ (chainIs_nodup hpush)
+        intro x hx
+        rcases List.mem_cons.1 hx with e | e
+        · rw [e]; exact h.lt_of_pc (by rw [hp]; simp)
+        · exact h.chain_lt hh x e
+      refine ⟨?_, rfl⟩
+      apply chain_state_ext <;> try rfl
+      · show absSlot c (Seen.node t) s.next = Slot.chain (t :: follow s.next c.n s.head)
+        unfold absSlot
+        rw [if_neg (by simp), follow_of_chainIs hpush c.n hlen]
+      · show (fun i => absPc c s.next i (upd s.pc t (if wkOf c t = WK.sync then Pc.wWait else Pc.wFinParked) i)) = upd (abs c s).pc t _
+        rw [abs_pc_step c s.next s.next s.pc t _ (fun _ _ => rfl)]
+        congr 1
+        split <;> rfl
+    · -- failure: `_next := head`, retry
+      rw [if_neg he, if_neg hh, if_neg he]
+      refine ⟨?_, rfl⟩
+      apply chain_state_ext <;> try rfl
+      · show absSlot c s.head (upd s.next t s.head) = absSlot c s.head s.next
+        unfold absSlot
+        rw [if_neg hh, if_neg hh]
+        congr 1
+        apply follow_congr
+        intro x hx
+        have : x ≠ t := fun e => h.not_mem_chain hh hu (e ▸ hx)
+        exact upd_other _ _ _ _ this
+      · show (fun i => absPc c (upd s.next t s.head) i (upd s.pc t (Pc.wCas false) i)) = upd (abs c s).pc t _
+        rw [abs_pc_step c s.next (upd s.next t s.head) s.pc t _ (h.absPc_frame_unsub hu _)]
+        simp only [absPc, upd_same]
+        rfl
+
+
+theorem finishRun_evs_congr (c : Cfg) (a b : Chain.State) (t : Nat) (dt : Bool) (evs : List Ev) (ho : a.owner = b.owner) :
+    (Chain.finishRun c a t dt evs).2 = (Chain.finishRun c b t dt evs).2 := by
+  have hd : (Chain.dtorLoad a t).2 = (Chain.dtorLoad b t).2 := by
+    unfold Chain.dtorLoad
+    rw [ho]
+    cases b.owner <;> rfl
+  unfold Chain.finishRun
+  cases dt
+  · cases c.kind t
+    · rfl
+    · rfl
+    · rfl
+    · show evs ++ (Chain.dtorLoad a t).2 = evs ++ (Chain.dtorLoad b t).2
+      rw [hd]
+  · rfl
+
+theorem lift_abs (c : Cfg) (s : State) : lift (abs c s) s = abs c s := rfl
+
+/-- the rest of `value()` after its `pending()` load, at both levels -/
+theorem runActs_pend (c : Cfg) (s : State) (t : Nat) (pend : Option (Nat × Seen)) (A : List Act) :
+    Chain.runActs c t (abs c s) (pendActs pend ++ A) =
+      ((Chain.runActs c t (abs c (pendStep c s pend).1) A).1,
+       (pendStep c s pend).2 ++ (Chain.runActs c t (abs c (pendStep c s pend).1) A).2.1,
+       (Chain.runActs c t (abs c (pendStep c s pend).1) A).2.2.1,
+       (Chain.runActs c t (abs c (pendStep c s pend).1) A).2.2.2) := by
+  cases pend with
+  | none => rfl
+  | some p =>
+    obtain ⟨x, sn⟩ := p
+    simp only [pendActs, pendStep, List.cons_append, List.nil_append, Chain.runActs, obsOf_eq]
+    rfl
+
+theorem pendStep_same (c : Cfg) (s : State) (pend : Option (Nat × Seen)) :
+    SameShared s (pendStep c s pend).1 ∧ (pendStep c s pend).1.next = s.next ∧ (pendStep c s pend).1.woken = s.woken
+      ∧ (pendStep c s pend).1.live = s.live ∧ (pendStep c s pend).1.log = s.log := by
+  cases pend with
+  | none => exact ⟨SameShared.refl s, rfl, rfl, rfl, rfl⟩
+  | some p => exact ⟨⟨rfl, rfl, rfl, rfl, rfl, rfl, rfl⟩, rfl, rfl, rfl, rfl⟩
+
+section
+variable {c : Cfg} {s : State} (h : PInv c s)
+include h
+
+/-- the nodes the walker still has to visit: within the fuel, subscribed, not released, and none of them the walker itself -/
+theorem PInv.walk_nodes {t : Nat} {dt : Bool} {cur : Ptr} {ret : List Nat} {pend : Option (Nat × Seen)}
+    (hp : s.pc t = Pc.rWalk dt cur ret pend) :
+    (follow s.next c.n cur).length ≤ c.n ∧
+    ∀ x, x ∈ follow s.next c.n cur → s.subscribed x = true ∧ s.woken x = 0 ∧ x ≠ t := by
+  obtain ⟨_, hwin, hc, hcnt⟩ := h.walk_facts hp
+  have hmem : ∀ x, x ∈ follow s.next c.n cur → s.subscribed x = true ∧ s.woken x = 0 := by
+    intro x hx
+    have hpos : 0 < (follow s.next c.n cur).count x := List.count_pos_iff.2 hx
+    have := hcnt x
+    split at this
+    · exact ⟨‹_›, by omega⟩
+    · omega
+  refine ⟨len_le c _ (chainIs_nodup hc) (fun x hx => (h.lt_of_sub (hmem x hx).1).1), ?_⟩
+  intro x hx
+  refine ⟨(hmem x hx).1, (hmem x hx).2, ?_⟩
+  intro e
+  subst e
+  -- the walker is not a waiter
+  have hw := (h.lt_of_sub (hmem x hx).1).2
+  have := (h.base.winpc x hwin).2.1
+  rw [Chain.isW_iff] at hw
+  obtain ⟨_, k, hk⟩ := hw
+  rw [hk] at this; simp [Chain.Kind.cls] at this
+
+end
+
+/-- one step of the walker against `Chain.stepRun` -/
+theorem sim_walk (c : Cfg) (s : State) (h : PInv c s) (t : Nat) (dt : Bool) (cur : Ptr) (ret : List Nat)
+    (pend : Option (Nat × Seen)) (hp : s.pc t = Pc.rWalk dt cur ret pend) :
+    abs c (stepWalk c s t dt cur ret pend).1 = (Chain.astep c (abs c s) t).1
+      ∧ (stepWalk c s t dt cur ret pend).2 = (Chain.astep c (abs c s) t).2 := by
+  obtain ⟨hhead, hwin, hc, hcnt⟩ := h.walk_facts hp
+  obtain ⟨hlen, hnodes⟩ := h.walk_nodes hp
+  have hA : Chain.astep c (abs c s) t =
+      Chain.stepRun c (abs c s) t dt (pendActs pend ++ walkActs c (follow s.next c.n cur) ret) := by
+    unfold Chain.astep; rw [abs_pc, hp]; rfl
+  obtain ⟨hsame, hnx, _, _, _⟩ := pendStep_same c s pend
+  have hc' : ChainIs (pendStep c s pend).1.next cur (follow s.next c.n cur) := by rw [hnx]; exact hc
+  have hseen : (abs c (pendStep c s pend).1).slot.seen = (pendStep c s pend).1.head := by
+    have e : (pendStep c s pend).1.head = Seen.ready := by rw [hsame.head, hhead]
+    rw [(absSlot_ready_iff c _).2 e, e]; rfl
+  obtain ⟨l', hrel, hcl', ⟨pre, hpre⟩, hfr⟩ :=
+    walk_sim c t (abs c (pendStep c s pend).1) (follow s.next c.n cur) c.n (pendStep c s pend).1 cur ret hc' hlen rfl hseen
+  have hB := runActs_pend c s t pend (walkActs c (follow s.next c.n cur) ret)
+  -- name the two results
+  generalize hr : walk c t c.n (pendStep c s pend).1 cur ret = r at hrel hcl' hfr
+  obtain ⟨hst, hevs, hrest, hstop, hsm⟩ := hrel
+  rw [lift_abs] at hst hevs hrest hstop
+  have hl'len : l'.length ≤ c.n := by
+    have : (follow s.next c.n cur).length = pre.length + l'.length := by rw [hpre]; simp
+    omega
+  have hfol : follow r.s.next c.n r.cur = l' := follow_of_chainIs hcl' c.n hl'len
+  have hrhead : r.s.head = Seen.ready := by rw [hsm.head, hsame.head, hhead]
+  -- `abs c r.s` and the list-level result agree except for the walker's own pc
+  have K : ∀ q, Chain.setPc (abs c r.s) t q = Chain.setPc (lift (abs c (pendStep c s pend).1) r.s) t q := by
+    intro q
+    apply chain_state_ext <;> try rfl
+    · exact hsm.owner
+    · show absSlot c r.s.head r.s.next = absSlot c (pendStep c s pend).1.head (pendStep c s pend).1.next
+      unfold absSlot
+      rw [if_pos hrhead, if_pos (by rw [hsame.head, hhead])]
+    · exact hsm.payload
+    · show upd (abs c r.s).pc t q = upd (abs c (pendStep c s pend).1).pc t q
+      funext i
+      by_cases hi : i = t
+      · subst hi; simp
+      · rw [upd_other _ _ _ _ hi, upd_other _ _ _ _ hi]
+        show absPc c r.s.next i (r.s.pc i) = absPc c (pendStep c s pend).1.next i ((pendStep c s pend).1.pc i)
+        rw [hsm.pc, hnx]
+        apply absPc_frame
+        · intro f hf
+          have hu := h.unsub (Or.inr (Or.inl ⟨f, by rw [← hsame.pc]; exact hf⟩))
+          rw [hfr i (h.not_mem_walk hp hu), hnx]
+        · intro dt' cur' ret' pend' hf
+          exact absurd (h.walker_unique hp (by rw [← hsame.pc]; exact hf)) hi
+    · exact hsm.wins
+    · exact hsm.winner
+    · exact hsm.subscribed
+  rw [hA]
+  unfold stepWalk Chain.stepRun
+  simp only [hr, hB]
+  rw [hstop]
+  by_cases hs : r.stopped = true
+  · rw [if_pos hs, if_pos hs]
+    refine ⟨?_, by simp only []; rw [hevs]⟩
+    rw [abs_setPc]
+    simp only [absPc, hfol]
+    rw [K, hst, hrest]
+  · rw [if_neg hs, if_neg hs]
+    obtain ⟨f1, f2⟩ := abs_finishRun c r.s t dt ((pendStep c s pend).2 ++ r.evs)
+    rw [f1, f2, hst, hevs]
+    refine ⟨?_, finishRun_evs_congr c _ _ t dt _ hsm.owner⟩
+    rw [← Chain.finishRun_setPc c t (abs c r.s) Chain.Pc.done, K, Chain.finishRun_setPc]
+
+/-- **One-step simulation.**  From every state satisfying the invariant, for every agent `t` (enabled or not): the abstraction
+of the pointer-level successor is the list-level successor of the abstraction, and the emitted events are the same. -/
+theorem sim_step (c : Cfg) (s : State) (h : PInv c s) (t : Nat) :
+    abs c (pstep c s t).1 = (Chain.astep c (abs c s) t).1 ∧ (pstep c s t).2 = (Chain.astep c (abs c s) t).2 := by
+  by_cases h1 : ∃ dt cur ret pend, s.pc t = Pc.rWalk dt cur ret pend
+  · obtain ⟨dt, cur, ret, pend, hp⟩ := h1
+    have : pstep c s t = stepWalk c s t dt cur ret pend := by unfold pstep; rw [hp]
+    rw [this]; exact sim_walk c s h t dt cur ret pend hp
+  · by_cases h2 : ∃ f, s.pc t = Pc.wCas f
+    · obtain ⟨f, hp⟩ := h2
+      have : pstep c s t = casStep c s t f := by unfold pstep; rw [hp]
+      rw [this]; exact sim_cas c s h t f hp
+    · exact sim_simple c s h t (fun dt cur ret pend e => h1 ⟨dt, cur, ret, pend, e⟩) (fun f e => h2 ⟨f, e⟩)
+
+/-! ## preservation of the structural invariant -/
+
+/-- steps that write no `_next` field and publish nothing -/
+theorem struct_pcStep (c : Cfg) (s : State) (hs : Struct c s) (s' : State) (t : Nat) (p : Pc)
+    (hhead : s'.head = s.head ∨ s'.head = Seen.ready) (hnext : s'.next = s.next) (hsub : s'.subscribed = s.subscribed)
+    (hpc : s'.pc = upd s.pc t p)
+    (hp1 : ∀ dt cur ret pend, p = Pc.rWalk dt cur ret pend → ChainIs s.next cur (follow s.next c.n cur))
+    (hp2 : p = Pc.wLoad → s.next t = Seen.null) (hp3 : ∀ f, p = Pc.wCas f → s.next t ≠ Seen.ready)
+    (hp4 : p = Pc.wRead true → s.subscribed t = false) (hal : Alive s') : Struct c s' := by
+  refine ⟨?_, ?_, ?_, ?_, ?_, hal⟩
+  · intro hh
+    rcases hhead with e | e
+    · rw [e, hnext]; rw [e] at hh; exact hs.chain hh
+    · exact absurd e hh
+  · intro i dt cur ret pend hi
+    rw [hnext]
+    rw [hpc] at hi
+    by_cases e : i = t
+    · subst e; rw [upd_same] at hi; exact hp1 _ _ _ _ hi
+    · rw [upd_other _ _ _ _ e] at hi; exact hs.walk i dt cur ret pend hi
+  · intro i hi
+    rw [hnext]
+    rw [hpc] at hi
+    by_cases e : i = t
+    · subst e; rw [upd_same] at hi; exact hp2 hi
+    · rw [upd_other _ _ _ _ e] at hi; exact hs.fresh i hi
+  · intro i f hi
+    rw [hnext]
+    rw [hpc] at hi
+    by_cases e : i = t
+    · subst e; rw [upd_same] at hi; exact hp3 f hi
+    · rw [upd_other _ _ _ _ e] at hi; exact hs.casnext i f hi
+  · intro i hi
+    rw [hsub]
+    rw [hpc] at hi
+    by_cases e : i = t
+    · subst e; rw [upd_same] at hi; exact hp4 hi
+    · rw [upd_other _ _ _ _ e] at hi; exact hs.refused i hi
+
+theorem struct_dtorLoad (c : Cfg) (s : State) (hs : Struct c s) (t : Nat) : Struct c (dtorLoad s t).1 := by
+  unfold dtorLoad
+  split
+  · exact struct_pcStep c s hs _ t (Pc.rResolve true) (Or.inl rfl) rfl rfl rfl (by simp) (by simp) (by simp) (by simp) hs.alive
+  · exact struct_pcStep c s hs _ t Pc.dFin (Or.inl rfl) rfl rfl rfl (by simp) (by simp) (by simp) (by simp) hs.alive
+
+theorem struct_ddefClaim (c : Cfg) (s : State) (hs : Struct c s) (t : Nat) : Struct c (ddefClaim s t).1 := by
+  unfold ddefClaim
+  split
+  · exact struct_pcStep c s hs _ t (Pc.rResolve false) (Or.inl rfl) rfl rfl rfl (by simp) (by simp) (by simp) (by simp) hs.alive
+  · exact struct_pcStep c s hs _ t Pc.dLoad (Or.inl rfl) rfl rfl rfl (by simp) (by simp) (by simp) (by simp) hs.alive
+
+theorem struct_dtorEnter (c : Cfg) (s : State) (hs : Struct c s) (t : Nat) : Struct c (dtorEnter c s t).1 := by
+  unfold dtorEnter
+  split
+  · exact struct_ddefClaim c s hs t
+  · exact struct_dtorLoad c s hs t
+
+theorem struct_finishRun (c : Cfg) (s : State) (hs : Struct c s) (t : Nat) (dt : Bool) (evs : List Ev) :
+    Struct c (finishRun c s t dt evs).1 := by
+  unfold finishRun
+  split
+  · exact struct_pcStep c s hs _ t Pc.done (Or.inl rfl) rfl rfl rfl (by simp) (by simp) (by simp) (by simp) hs.alive
+  · split
+    · exact struct_dtorLoad c s hs t
+    · exact struct_pcStep c s hs _ t Pc.done (Or.inl rfl) rfl rfl rfl (by simp) (by simp) (by simp) (by simp) hs.alive
+
+theorem alive_observe (s : State) (x : Nat) (h : Alive s) : Alive (observe s x) := h
+
+theorem alive_die (c : Cfg) (s : State) (h : PInv c s) (t : Nat) (hf : s.flag t = true) : Alive (die s t) := by
+  intro x hx
+  by_cases e : x = t
+  · subst e
+    have := ((h.base.flag_iff x).1 hf).2
+    change s.woken x = 0 at hx
+    change 1 ≤ s.woken x at this
+    omega
+  · show upd s.live t false x = true
+    rw [upd_other _ _ _ _ e]; exact h.str.alive x hx
+
+theorem struct_readStep (c : Cfg) (s : State) (hs : Struct c s) (t : Nat) :
+    Struct c (readStep c s t).1 := by
+  unfold readStep
+  split
+  · exact struct_pcStep c s hs _ t _ (Or.inl rfl) rfl rfl rfl (by simp) (by simp) (by simp) (by simp) hs.alive
+  · exact struct_pcStep c s hs _ t Pc.done (Or.inl rfl) rfl rfl rfl (by simp) (by simp) (by simp) (by simp) hs.alive
+
+
+/-- an agent writes the `_next` field of its own, unpublished node (failed CAS, refused path) -/
+theorem struct_writeOwn (c : Cfg) (s : State) (h : PInv c s) (s' : State) (t : Nat) (p : Pc) (v : Ptr)
+    (hu : s.subscribed t = false)
+    (hhead : s'.head = s.head) (hnext : s'.next = upd s.next t v) (hsub : s'.subscribed = s.subscribed)
+    (hpc : s'.pc = upd s.pc t p)
+    (hp1 : ∀ dt cur ret pend, p ≠ Pc.rWalk dt cur ret pend)
+    (hp2 : p = Pc.wLoad → v = Seen.null) (hp3 : ∀ f, p = Pc.wCas f → v ≠ Seen.ready)
+    (hal : Alive s') : Struct c s' := by
+  refine ⟨?_, ?_, ?_, ?_, ?_, hal⟩
+  · intro hh
+    rw [hhead] at hh ⊢
+    rw [hnext]
+    have hnm := h.not_mem_chain hh hu
+    have hfol : follow (upd s.next t v) c.n s.head = follow s.next c.n s.head := by
+      apply follow_congr
+      intro x hx
+      exact upd_other _ _ _ _ (fun e => hnm (e ▸ hx))
+    rw [hfol]
+    exact chainIs_frame (h.str.chain hh) t v hnm
+  · intro i dt cur ret pend hi
+    rw [hpc] at hi
+    by_cases e : i = t
+    · subst e; rw [upd_same] at hi; exact absurd hi (hp1 _ _ _ _)
+    · rw [upd_other _ _ _ _ e] at hi
+      rw [hnext]
+      have hnm := h.not_mem_walk hi hu
+      have hfol : follow (upd s.next t v) c.n cur = follow s.next c.n cur := by
+        apply follow_congr
+        intro x hx
+        exact upd_other _ _ _ _ (fun e => hnm (e ▸ hx))
+      rw [hfol]
+      exact chainIs_frame (h.str.walk i dt cur ret pend hi) t v hnm
+  · intro i hi
+    rw [hpc] at hi
+    rw [hnext]
+    by_cases e : i = t
+    · subst e; rw [upd_same] at hi ⊢; exact hp2 hi
+    · rw [upd_other _ _ _ _ e] at hi ⊢; exact h.str.fresh i hi
+  · intro i f hi
+    rw [hpc] at hi
+    rw [hnext]
+    by_cases e : i = t
+    · subst e; rw [upd_same] at hi ⊢; exact hp3 f hi
+    · rw [upd_other _ _ _ _ e] at hi ⊢; exact h.str.casnext i f hi
+  · intro i hi
+    rw [hpc] at hi
+    rw [hsub]
+    by_cases e : i = t
+    · subst e; exact hu
+    · rw [upd_other _ _ _ _ e] at hi; exact h.str.refused i hi
+
+theorem struct_cas (c : Cfg) (s : State) (h : PInv c s) (t : Nat) (f : Bool) (hp : s.pc t = Pc.wCas f) :
+    Struct c (casStep c s t f).1 := by
+  have hu := h.unsub (Or.inr (Or.inl ⟨f, hp⟩))
+  unfold casStep
+  by_cases he : s.head = s.next t
+  · -- success
+    rw [if_pos he]
+    have hh : s.head ≠ Seen.ready := by rw [he]; exact h.str.casnext t f hp
+    have hc := h.str.chain hh
+    have hpush := chainIs_push hc t he.symm
+    have hlen : (t :: follow s.next c.n s.head).length ≤ c.n := by
+      apply len_le c _ (chainIs_nodup hpush)
+      intro x hx
+      rcases List.mem_cons.1 hx with e | e
+      · rw [e]; exact h.lt_of_pc (by rw [hp]; simp)
+      · exact h.chain_lt hh x e
+    refine ⟨?_, ?_, ?_, ?_, ?_, h.str.alive⟩
+    · intro _
+      show ChainIs s.next (Seen.node t) (follow s.next c.n (Seen.node t))
+      rw [follow_of_chainIs hpush c.n hlen]; exact hpush
+    · intro i dt cur ret pend hi
+      exact absurd (show s.pc i = Pc.rWalk dt cur ret pend by
+        change upd s.pc t _ i = _ at hi
+        by_cases e : i = t
+        · subst e; rw [upd_same] at hi; split at hi <;> cases hi
+        · rwa [upd_other _ _ _ _ e] at hi) ((h.chain_facts hh).2.2.2 i dt cur ret pend)
+    · intro i hi
+      change upd s.pc t _ i = _ at hi
+      by_cases e : i = t
+      · subst e; rw [upd_same] at hi; split at hi <;> cases hi
+      · rw [upd_other _ _ _ _ e] at hi; exact h.str.fresh i hi
+    · intro i f' hi
+      change upd s.pc t _ i = _ at hi
+      by_cases e : i = t
+      · subst e; rw [upd_same] at hi; split at hi <;> cases hi
+      · rw [upd_other _ _ _ _ e] at hi; exact h.str.casnext i f' hi
+    · intro i hi
+      change upd s.pc t _ i = _ at hi
+      by_cases e : i = t
+      · subst e; rw [upd_same] at hi; split at hi <;> cases hi
+      · rw [upd_other _ _ _ _ e] at hi
+        show upd s.subscribed t true i = false
+        rw [upd_other _ _ _ _ e]; exact h.str.refused i hi
+  · rw [if_neg he]
+    by_cases hh : s.head = Seen.ready
+    · rw [if_pos hh]
+      exact struct_writeOwn c s h _ t (Pc.wRead true) Seen.ready hu rfl rfl rfl rfl (by simp) (by simp) (by simp) h.str.alive
+    · rw [if_neg hh]
+      exact struct_writeOwn c s h _ t (Pc.wCas false) s.head hu rfl rfl rfl rfl (by simp) (by simp)
+        (fun _ _ => hh) h.str.alive
+
+theorem struct_clearNext (c : Cfg) (s : State) (h : PInv c s) (t : Nat) (hp : s.pc t = Pc.wRead true) :
+    Struct c (clearNext s t) :=
+  struct_writeOwn c s h _ t (Pc.wRead true) Seen.null (h.unsub (Or.inr (Or.inr hp))) rfl rfl rfl
+    (by show s.pc = upd s.pc t (Pc.wRead true); rw [Chain.upd_self _ _ _ hp]) (by simp) (by simp) (by simp) h.str.alive
+
+theorem struct_walk (c : Cfg) (s : State) (h : PInv c s) (t : Nat) (dt : Bool) (cur : Ptr) (ret : List Nat)
+    (pend : Option (Nat × Seen)) (hp : s.pc t = Pc.rWalk dt cur ret pend) :
+    Struct c (stepWalk c s t dt cur ret pend).1 := by
+  obtain ⟨hhead, hwin, hc, hcnt⟩ := h.walk_facts hp
+  obtain ⟨hlen, hnodes⟩ := h.walk_nodes hp
+  obtain ⟨hsame, hnx, hwk, hlv, _⟩ := pendStep_same c s pend
+  have hc' : ChainIs (pendStep c s pend).1.next cur (follow s.next c.n cur) := by rw [hnx]; exact hc
+  have hseen : (abs c (pendStep c s pend).1).slot.seen = (pendStep c s pend).1.head := by
+    have e : (pendStep c s pend).1.head = Seen.ready := by rw [hsame.head, hhead]
+    rw [(absSlot_ready_iff c _).2 e, e]; rfl
+  obtain ⟨l', hrel, hcl', ⟨pre, hpre⟩, hfr⟩ :=
+    walk_sim c t (abs c (pendStep c s pend).1) (follow s.next c.n cur) c.n (pendStep c s pend).1 cur ret hc' hlen rfl hseen
+  have hal : Alive (walk c t c.n (pendStep c s pend).1 cur ret).s := by
+    apply alive_walk
+    intro x hx; rw [hlv]; rw [hwk] at hx; exact h.str.alive x hx
+  generalize hr : walk c t c.n (pendStep c s pend).1 cur ret = r at hrel hcl' hfr hal
+  have hsm := hrel.same
+  have hl'len : l'.length ≤ c.n := by
+    have : (follow s.next c.n cur).length = pre.length + l'.length := by rw [hpre]; simp
+    omega
+  have hfol : follow r.s.next c.n r.cur = l' := follow_of_chainIs hcl' c.n hl'len
+  have hrhead : r.s.head = Seen.ready := by rw [hsm.head, hsame.head, hhead]
+  have hrpc : r.s.pc = s.pc := by rw [hsm.pc, hsame.pc]
+  have hrsub : r.s.subscribed = s.subscribed := by rw [hsm.subscribed, hsame.subscribed]
+  have hrnext : ∀ i, s.subscribed i = false → r.s.next i = s.next i := by
+    intro i hi; rw [hfr i (h.not_mem_walk hp hi), hnx]
+  -- the structure of the walker's result, whatever its own next pc is
+  have key : ∀ p : Pc, (∀ dt' cur' ret' pend', p = Pc.rWalk dt' cur' ret' pend' → cur' = r.cur) →
+      p ≠ Pc.wLoad → (∀ f, p ≠ Pc.wCas f) → p ≠ Pc.wRead true → Struct c (setPc r.s t p) := by
+    intro p h1 h2 h3 h4
+    refine ⟨?_, ?_, ?_, ?_, ?_, hal⟩
+    · intro hh; exact absurd hrhead hh
+    · intro i dt' cur' ret' pend' hi
+      change upd r.s.pc t p i = _ at hi
+      by_cases e : i = t
+      · subst e; rw [upd_same] at hi
+        rw [h1 _ _ _ _ hi]
+        show ChainIs r.s.next r.cur (follow r.s.next c.n r.cur)
+        rw [hfol]; exact hcl'
+      · rw [upd_other _ _ _ _ e, hrpc] at hi
+        exact absurd (h.walker_unique hp hi) e
+    · intro i hi
+      change upd r.s.pc t p i = _ at hi
+      by_cases e : i = t
+      · subst e; rw [upd_same] at hi; exact absurd hi h2
+      · rw [upd_other _ _ _ _ e, hrpc] at hi
+        show r.s.next i = _
+        rw [hrnext i (h.unsub (Or.inl hi))]; exact h.str.fresh i hi
+    · intro i f hi
+      change upd r.s.pc t p i = _ at hi
+      by_cases e : i = t
+      · subst e; rw [upd_same] at hi; exact absurd hi (h3 f)
+      · rw [upd_other _ _ _ _ e, hrpc] at hi
+        show r.s.next i ≠ _
+        rw [hrnext i (h.unsub (Or.inr (Or.inl ⟨f, hi⟩)))]; exact h.str.casnext i f hi
+    · intro i hi
+      change upd r.s.pc t p i = _ at hi
+      by_cases e : i = t
+      · subst e; rw [upd_same] at hi; exact absurd hi h4
+      · rw [upd_other _ _ _ _ e, hrpc] at hi
+        show r.s.subscribed i = false
+        rw [hrsub]; exact h.str.refused i hi
+  unfold stepWalk
+  simp only [hr]
+  split
+  · exact key _ (fun _ _ _ _ e => by injection e with _ e _ _; exact e.symm) (by simp) (by simp) (by simp)
+  · -- the walk is over: the walker's pc becomes `done` (or the base destructor goes on)
+    have hst : Struct c (setPc r.s t Pc.done) := key _ (by simp) (by simp) (by simp) (by simp)
+    have := struct_finishRun c (setPc r.s t Pc.done) hst t dt ((pendStep c s pend).2 ++ r.evs)
+    have e : (finishRun c (setPc r.s t Pc.done) t dt ((pendStep c s pend).2 ++ r.evs)).1
+        = (finishRun c r.s t dt ((pendStep c s pend).2 ++ r.evs)).1 := by
+      unfold finishRun dtorLoad
+      cases dt <;> cases c.kind t <;> simp only [setPc, Chain.upd_upd] <;> try rfl
+      all_goals (split <;> simp only [setPc, Chain.upd_upd])
+    rwa [e] at this
+
+theorem struct_step (c : Cfg) (s : State) (h : PInv c s) (t : Nat) (hen : enabled c s t = true) :
+    Struct c (pstep c s t).1 := by
+  have hs := h.str
+  unfold pstep
+  cases hp : s.pc t with
+  | done => exact hs
+  | rClaim =>
+    simp only []
+    split
+    · exact struct_pcStep c s hs _ t (Pc.rResolve false) (Or.inl rfl) rfl rfl rfl (by simp) (by simp) (by simp) (by simp) hs.alive
+    · exact struct_pcStep c s hs _ t Pc.rFinLost (Or.inl rfl) rfl rfl rfl (by simp) (by simp) (by simp) (by simp) hs.alive
+  | rFinLost => exact struct_pcStep c s hs _ t Pc.done (Or.inl rfl) rfl rfl rfl (by simp) (by simp) (by simp) (by simp) hs.alive
+  | rResolve dt =>
+    have hpc' : (abs c s).pc t = Chain.Pc.rResolve dt := by rw [abs_pc, hp]; rfl
+    obtain ⟨l, hl⟩ := Chain.chain_of_resolve c t (abs c s) h.base dt hpc'
+    have hh : s.head ≠ Seen.ready := by
+      intro e; rw [(absSlot_ready_iff c s).2 e] at hl; cases hl
+    exact struct_pcStep c s hs _ t (Pc.rWalk dt s.head [] none) (Or.inr rfl) rfl rfl rfl
+      (fun _ _ _ _ e => by injection e with _ e _ _; rw [← e]; exact hs.chain hh) (by simp) (by simp) (by simp) hs.alive
+  | rWalk dt cur ret pend => exact struct_walk c s h t dt cur ret pend hp
+  | dArrive =>
+    simp only []
+    split
+    · exact struct_dtorEnter c s hs t
+    · exact struct_pcStep c s hs _ t Pc.dBlocked (Or.inl rfl) rfl rfl rfl (by simp) (by simp) (by simp) (by simp) hs.alive
+  | dBlocked => exact struct_dtorEnter c s hs t
+  | dLoad => exact struct_dtorLoad c s hs t
+  | dFin => exact struct_pcStep c s hs _ t Pc.done (Or.inl rfl) rfl rfl rfl (by simp) (by simp) (by simp) (by simp) hs.alive
+  | wLoad =>
+    simp only []
+    split
+    · exact struct_pcStep c s hs _ t (Pc.wRead false) (Or.inl rfl) rfl rfl rfl (by simp) (by simp) (by simp) (by simp) hs.alive
+    · exact struct_pcStep c s hs _ t (Pc.wCas true) (Or.inl rfl) rfl rfl rfl (by simp) (by simp)
+        (fun _ _ => by rw [hs.fresh t hp]; simp) (by simp) hs.alive
+  | wCas f => exact struct_cas c s h t f hp
+  | wFinParked => exact struct_pcStep c s hs _ t Pc.done (Or.inl rfl) rfl rfl rfl (by simp) (by simp) (by simp) (by simp) hs.alive
+  | wWait =>
+    simp only []
+    split
+    · rename_i hf
+      exact struct_pcStep c s hs _ t (Pc.wRead false) (Or.inl rfl) rfl rfl rfl (by simp) (by simp) (by simp) (by simp)
+        (alive_die c s h t hf)
+    · exact struct_pcStep c s hs _ t Pc.wBlocked (Or.inl rfl) rfl rfl rfl (by simp) (by simp) (by simp) (by simp) hs.alive
+  | wBlocked =>
+    have hf : s.flag t = true := by simpa [enabled, hp] using hen
+    exact struct_pcStep c s hs _ t (Pc.wRead false) (Or.inl rfl) rfl rfl rfl (by simp) (by simp) (by simp) (by simp)
+      (alive_die c s h t hf)
+  | wRead clr =>
+    cases clr with
+    | false => exact struct_readStep c s hs t
+    | true => exact struct_readStep c _ (struct_clearNext c s h t hp) t
+  | wRead2 sn =>
+    exact struct_pcStep c s hs _ t Pc.done (Or.inl rfl) rfl rfl rfl (by simp) (by simp) (by simp) (by simp) hs.alive
+
+/-- the invariant is preserved by every enabled step -/
+theorem pinv_step (c : Cfg) (s : State) (h : PInv c s) (t : Nat) (hen : enabled c s t = true) : PInv c (pstep c s t).1 := by
+  refine ⟨?_, struct_step c s h t hen⟩
+  rw [(sim_step c s h t).1]
+  exact Chain.inv_astep c t (abs c s) h.base (by rw [← enabled_eq]; exact hen)
+
+theorem pinv_run (c : Cfg) (s : State) (sched : List Nat) (h : PInv c s) : PInv c (prun c s sched) := by
+  induction sched generalizing s with
+  | nil => exact h
+  | cons t r ih =>
+    simp only [prun, List.foldl_cons]
+    split
+    · rename_i hen; exact ih _ (pinv_step c s h t hen)
+    · exact ih _ h
+
+/-- `s` is reached from the initial pointer-level state by some schedule -/
+def PReachable (c : Cfg) (s : State) : Prop := ∃ sched : List Nat, s = prun c (init c) sched
+
+theorem PReachable.inv {c : Cfg} {s : State} (h : PReachable c s) : PInv c s := by
+  obtain ⟨sched, rfl⟩ := h; exact pinv_run c _ sched (pinv_init c)
+
+theorem preachable_run (c : Cfg) (sched : List Nat) : PReachable c (prun c (init c) sched) := ⟨sched, rfl⟩
+
+/-- **Simulation for whole runs** (from any state satisfying the invariant) -/
+theorem sim_run_from (c : Cfg) (s : State) (h : PInv c s) (sched : List Nat) :
+    abs c (prun c s sched) = Chain.run c (abs c s) sched := by
+  induction sched generalizing s with
+  | nil => rfl
+  | cons t r ih =>
+    simp only [prun, Chain.run, List.foldl_cons]
+    rw [← enabled_eq]
+    split
+    · rename_i hen
+      rw [← (sim_step c s h t).1]
+      exact ih _ (pinv_step c s h t hen)
+    · exact ih _ h
+
+/-- **Simulation for whole runs**: the abstraction of the pointer-level run is the list-level run, for every configuration and
+every schedule -/
+theorem sim_run (c : Cfg) (sched : List Nat) : abs c (prun c (init c) sched) = Chain.run c (Chain.init c) sched := by
+  rw [sim_run_from c _ (pinv_init c), abs_init]
+
+/-- the abstraction of a reachable pointer-level state is a reachable list-level state -/
+theorem PReachable.abs {c : Cfg} {s : State} (h : PReachable c s) : Chain.Reachable c (abs c s) := by
+  obtain ⟨sched, rfl⟩ := h; exact ⟨sched, sim_run c sched⟩
+
+theorem sim_runEv_from (c : Cfg) (p : State × List Ev) (h : PInv c p.1) (sched : List Nat) :
+    abs c (prunEvA c p sched).1 = (Chain.runEvA c (abs c p.1, p.2) sched).1
+      ∧ (prunEvA c p sched).2 = (Chain.runEvA c (abs c p.1, p.2) sched).2 := by
+  induction sched generalizing p with
+  | nil => exact ⟨rfl, rfl⟩
+  | cons t r ih =>
+    simp only [prunEvA, Chain.runEvA, List.foldl_cons]
+    rw [← enabled_eq]
+    split
+    · rename_i hen
+      have := ih ((pstep c p.1 t).1, p.2 ++ (pstep c p.1 t).2) (pinv_step c p.1 h t hen)
+      simp only [(sim_step c p.1 h t).1, (sim_step c p.1 h t).2] at this
+      rw [(sim_step c p.1 h t).2]
+      exact this
+    · exact ih p h
+
+/-- the event traces agree, too -/
+theorem sim_runEv (c : Cfg) (sched : List Nat) :
+    (prunEv c (init c) sched).2 = (Chain.runEv c (Chain.init c) sched).2 := by
+  have := (sim_runEv_from c (init c, []) (pinv_init c) sched).2
+  rw [abs_init] at this
+  exact this
+
+/-! ## (d) node-lifetime safety -/
+
+/-- the discipline every plain access to a field of an awaiter node obeys: the node is live at the moment of the access; its own
+waiter touches it only while it is unpublished; anybody else touching it is not a waiter (it is the walker), and the node is
+a published waiter's -/
+structure AccessOK (c : Cfg) (a : Access) : Prop where
+  live : a.live = true
+  own : a.agent = a.node → a.pub = false
+  other : a.agent ≠ a.node → a.pub = true ∧ Chain.isW c a.agent = false ∧ Chain.isW c a.node = true
+
+theorem dtorLoad_log (s : State) (t : Nat) : (dtorLoad s t).1.log = s.log := by
+  unfold dtorLoad; split <;> rfl
+
+theorem ddefClaim_log (s : State) (t : Nat) : (ddefClaim s t).1.log = s.log := by
+  unfold ddefClaim; split <;> rfl
+
+theorem dtorEnter_log (c : Cfg) (s : State) (t : Nat) : (dtorEnter c s t).1.log = s.log := by
+  unfold dtorEnter; split
+  · exact ddefClaim_log s t
+  · exact dtorLoad_log s t
+
+theorem finishRun_log (c : Cfg) (s : State) (t : Nat) (dt : Bool) (evs : List Ev) : (finishRun c s t dt evs).1.log = s.log := by
+  unfold finishRun
+  split
+  · rfl
+  · split
+    · exact dtorLoad_log s t
+    · rfl
+
+theorem readStep_log (c : Cfg) (s : State) (t : Nat) : (readStep c s t).1.log = s.log := by
+  unfold readStep; split <;> rfl
+
+theorem PInv.woken_zero {c : Cfg} {s : State} (h : PInv c s) {x : Nat} (hx : s.subscribed x = false) : s.woken x = 0 := by
+  rcases Chain.slot_cases (abs c s) with hs | ⟨l, hl⟩
+  · obtain ⟨w, hw, _, _⟩ := h.base.ready_phase hs
+    have := h.base.readyW hs w hw x
+    change s.woken x + _ = if s.subscribed x = true then 1 else 0 at this
+    rw [hx] at this
+    simp only [Bool.false_eq_true, if_false] at this
+    omega
+  · exact ((h.base.chain_phase l hl).2.1 x).1
+
+/-- an access of agent `t` to its own, unpublished node -/
+theorem PInv.own_access_ok {c : Cfg} {s : State} (h : PInv c s) {t : Nat} (hu : s.subscribed t = false) (f : Field) (w : Bool) :
+    AccessOK c { agent := t, node := t, field := f, write := w, live := s.live t, pub := s.subscribed t } :=
+  ⟨h.str.alive t (h.woken_zero hu), fun _ => hu, fun e => absurd rfl e⟩
+
+/-- **Every access of the next step of any agent is safe**: from a state satisfying the invariant, every plain access to a node
+field that the step of agent `t` performs (= every log entry it adds) touches a node that is still live at that moment, and obeys
+the ownership discipline `AccessOK` -/
+theorem step_access_ok (c : Cfg) (s : State) (h : PInv c s) (t : Nat) :
+    ∀ a, a ∈ (pstep c s t).1.log → a ∈ s.log ∨ AccessOK c a := by
+  intro a ha
+  unfold pstep at ha
+  cases hp : s.pc t with
+  | done => rw [hp] at ha; exact Or.inl ha
+  | rClaim => rw [hp] at ha; simp only [] at ha; split at ha <;> exact Or.inl ha
+  | rFinLost => rw [hp] at ha; exact Or.inl ha
+  | rResolve dt => rw [hp] at ha; exact Or.inl ha
+  | rWalk dt cur ret pend =>
+    rw [hp] at ha
+    obtain ⟨hhead, hwin, hc, hcnt⟩ := h.walk_facts hp
+    obtain ⟨hlen, hnodes⟩ := h.walk_nodes hp
+    obtain ⟨hsame, hnx, hwk, hlv, hlog⟩ := pendStep_same c s pend
+    have hc' : ChainIs (pendStep c s pend).1.next cur (follow s.next c.n cur) := by rw [hnx]; exact hc
+    have ha' : a ∈ (walk c t c.n (pendStep c s pend).1 cur ret).s.log := by
+      unfold stepWalk at ha
+      simp only [] at ha
+      split at ha
+      · exact ha
+      · rwa [finishRun_log] at ha
+    rcases walk_log c t _ c.n _ cur ret hc' hlen (by
+        intro x hx
+        rw [hlv, hsame.subscribed]
+        exact ⟨h.str.alive x (hnodes x hx).2.1, (hnodes x hx).1⟩) a ha' with h1 | ⟨h1, h2, h3, h4⟩
+    · rw [hlog] at h1; exact Or.inl h1
+    · right
+      have hne : a.agent ≠ a.node := by rw [h1]; exact fun e => (hnodes _ h2).2.2 e.symm
+      refine ⟨h3, fun e => absurd e hne, fun _ => ⟨h4, ?_, (h.lt_of_sub (hnodes _ h2).1).2⟩⟩
+      rw [h1]
+      have := (h.base.winpc t hwin).2.1
+      cases hw : Chain.isW c t
+      · rfl
+      · rw [Chain.isW_iff] at hw
+        obtain ⟨_, k, hk⟩ := hw
+        rw [hk] at this; simp [Chain.Kind.cls] at this
+  | dArrive =>
+    rw [hp] at ha; simp only [] at ha
+    split at ha
+    · rw [dtorEnter_log] at ha; exact Or.inl ha
+    · exact Or.inl ha
+  | dBlocked => rw [hp] at ha; simp only [] at ha; rw [dtorEnter_log] at ha; exact Or.inl ha
+  | dLoad => rw [hp] at ha; simp only [] at ha; rw [dtorLoad_log] at ha; exact Or.inl ha
+  | dFin => rw [hp] at ha; exact Or.inl ha
+  | wLoad => rw [hp] at ha; simp only [] at ha; split at ha <;> exact Or.inl ha
+  | wCas f =>
+    rw [hp] at ha
+    have hu := h.unsub (Or.inr (Or.inl ⟨f, hp⟩))
+    have hprep : ∀ a, a ∈ (prepare s t f).log → a ∈ s.log ∨ AccessOK c a := by
+      intro a ha
+      simp only [prepare, List.mem_append, List.mem_singleton] at ha
+      rcases ha with (ha | ha) | ha
+      · exact Or.inl ha
+      · subst ha; exact Or.inr (h.own_access_ok hu _ _)
+      · subst ha; exact Or.inr (h.own_access_ok hu _ _)
+    have hfail : ∀ a, a ∈ (acc (prepare s t f) t t Field.next true).log → a ∈ s.log ∨ AccessOK c a := by
+      intro a ha
+      simp only [acc, List.mem_append, List.mem_singleton] at ha
+      rcases ha with ha | ha
+      · exact hprep a ha
+      · subst ha; exact Or.inr (h.own_access_ok hu _ _)
+    simp only [] at ha
+    unfold casStep at ha
+    split at ha
+    · exact hprep a ha
+    · split at ha
+      · exact hfail a ha
+      · exact hfail a ha
+  | wFinParked => rw [hp] at ha; exact Or.inl ha
+  | wWait => rw [hp] at ha; simp only [] at ha; split at ha <;> exact Or.inl ha
+  | wBlocked => rw [hp] at ha; exact Or.inl ha
+  | wRead clr =>
+    rw [hp] at ha; simp only [] at ha
+    rw [readStep_log] at ha
+    cases clr with
+    | false => exact Or.inl ha
+    | true =>
+      have hu := h.unsub (Or.inr (Or.inr hp))
+      simp only [if_true, clearNext, acc, List.mem_append, List.mem_singleton] at ha
+      rcases ha with (ha | ha) | ha
+      · exact Or.inl ha
+      · subst ha; exact Or.inr (h.own_access_ok hu _ _)
+      · subst ha; exact Or.inr (h.own_access_ok hu _ _)
+  | wRead2 sn => rw [hp] at ha; exact Or.inl ha
+
+theorem log_ok_run (c : Cfg) (s : State) (sched : List Nat) (h : PInv c s) (hl : ∀ a, a ∈ s.log → AccessOK c a) :
+    ∀ a, a ∈ (prun c s sched).log → AccessOK c a := by
+  induction sched generalizing s with
+  | nil => exact hl
+  | cons t r ih =>
+    simp only [prun, List.foldl_cons]
+    split
+    · rename_i hen
+      apply ih _ (pinv_step c s h t hen)
+      intro a ha
+      rcases step_access_ok c s h t a ha with h1 | h1
+      · exact hl a h1
+      · exact h1
+    · exact ih _ h hl
+
+/-- **No access to a dead node, ever**: every entry of the access log of every reachable state obeys `AccessOK` -/
+theorem log_ok {c : Cfg} {s : State} (h : PReachable c s) : ∀ a, a ∈ s.log → AccessOK c a := by
+  obtain ⟨sched, rfl⟩ := h
+  exact log_ok_run c _ sched (pinv_init c) (fun a ha => by cases ha)
+
 end Cocls.ChainPtr
